@@ -331,7 +331,11 @@ def gen_cases(rng, tier):
         if rng.random() < 0.6:
             cases.append(Case("mttkrp_factors", {"kt": {"w": w, "f": fs}, "seq": None, "n": n, "ndims": ndims}, True))
         else:
-            cases.append(Case("mttkrp_factors", {"kt": None, "seq": fs, "n": n, "ndims": ndims, "as_tuple": rng.random() < 0.3}, True))
+            fs2 = fs
+            if rng.random() < 0.4:           # one factor with another column count (admissible only at the skipped mode)
+                j = rng.randrange(nd)
+                fs2 = [f if i != j else [row + [1] for row in f] for i, f in enumerate(fs)]
+            cases.append(Case("mttkrp_factors", {"kt": None, "seq": fs2, "n": n, "ndims": ndims, "as_tuple": rng.random() < 0.3}, True))
         cases.append(Case("prim3_redistribute", {"kt": {"w": w, "f": fs}, "mode": rng.randint(-nd - 1, nd)}, True))
     # --- shape / subscript / value checks and the small predicates
     for a in nda_cases(rng, big):
@@ -833,9 +837,13 @@ def oracle(c, o):
             return f"well-formed renumbering request rejected ({o})"
         want = [[[sels[j].index(row[j]) for j in range(len(shp))] for row in subs], [len(s) for s in sels]]
         return None if o["ok"] == want else f"tt_renumber returned {o['ok']}, expected {want}"
+    if c.op == "mttkrp_factors" and a["kt"] is None:
+        fs, n = a["seq"], a["n"]
+        adm = a["ndims"] == len(fs) and 0 <= n < len(fs) and len({len(f[0]) for i, f in enumerate(fs) if i != n}) <= 1
+        if not adm:
+            return None if "exc" in o else f"inadmissible factor list (mode, count or column counts) was answered: {o}"
+        return None if o.get("ok") == fs else f"admissible factor list answered with {o}"
     if c.op == "mttkrp_factors":
-        if a["kt"] is None:
-            return None
         nd = len(a["kt"]["f"])
         if a["ndims"] != nd or not (0 <= a["n"] < nd) or nd < 2:
             return None if ("exc" in o or nd < 2) else "inadmissible mode / factor count accepted"
